@@ -3,7 +3,7 @@ import heapq
 import math
 import struct
 
-from .absint import (p_const, p_add, p_mul, RQ, I, Fl, Ag, En, Sq, Pt, Top, Md, UNIT, BOT, Bot, St, Ctx, Frame, Unsupported, Diverge, PathAbort,
+from .absint import (tl, EMPTY, p_const, p_add, p_mul, RQ, I, Fl, Ag, En, Sq, Pt, Top, Md, UNIT, BOT, Bot, St, Ctx, Frame, Unsupported, Diverge, PathAbort,
                      INF, USIZE_MAX, ISIZE_MAX, array_len, join_states, same_state, gc_state, map_value, iter_ints, rename_vid)
 from .facts import CheckerError, const_of, decode_scalar
 from .mir import Body, kind_of, show
@@ -189,7 +189,7 @@ class Interp:
         if v is BOT:
             raise Diverge()
         def f(i):
-            n = self.ctx.mk_int(st, *st.itv[i.vid], i.ty, taint=(i.vid in st.taint))
+            n = self.ctx.mk_int(st, *st.itv[i.vid], i.ty, taint=tl(st, i.vid))
             return n
         return map_value(v, f)
 
@@ -205,7 +205,7 @@ class Interp:
                 return a
             la, ha = st.itv[a.vid]
             lb, hb = st.itv[b.vid]
-            return self.ctx.mk_int(st, min(la, lb), max(ha, hb), a.ty, taint=(a.vid in st.taint or b.vid in st.taint))
+            return self.ctx.mk_int(st, min(la, lb), max(ha, hb), a.ty, taint=tl(st, a.vid, b.vid))
         if ta is Top:
             return a
         if tb is Top:
@@ -582,12 +582,12 @@ class Interp:
             raise Unsupported(f"binop {op} on {ta.__name__},{tb.__name__}")
         la, ha = self.eff_itv(st, a.vid)
         lb, hb = self.eff_itv(st, b.vid)
-        taint = a.vid in st.taint or b.vid in st.taint
+        taint = tl(st, a.vid, b.vid)
         if op in ("Eq", "Ne", "Lt", "Le", "Gt", "Ge"):
             r = self.decide_cmp(st, op, a, b)
             res = self.mkbool(st, r, ("cmp", (a.vid, b.vid), op))
-            if taint:
-                st.taint.add(res.vid)
+            if taint is not None:
+                st.taint.add(res.vid, taint)
             return res
         rty = dest_ty
         if checked:
@@ -665,8 +665,8 @@ class Interp:
                         r = la ^ lb
                     pk = "xor"
                 res = self.mkbool(st, r, (pk, (a.vid, b.vid), None))
-                if taint:
-                    st.taint.add(res.vid)
+                if taint is not None:
+                    st.taint.add(res.vid, taint)
                 return res
             if la == ha and lb == hb:
                 v = {"BitAnd": la & lb, "BitOr": la | lb, "BitXor": la ^ lb}[op]
@@ -859,13 +859,13 @@ class Interp:
             raise Unsupported(f"unop {op} on {type(a).__name__}")
         lo, hi = st.itv[a.vid]
         t = self.prog.ty(a.ty)
-        taint = a.vid in st.taint
+        taint = tl(st, a.vid)
         if op == "Not":
             if t.tag == "Bool":
                 r = None if lo != hi else (1 - lo)
                 res = self.mkbool(st, r, ("not", (a.vid,), None))
-                if taint:
-                    st.taint.add(res.vid)
+                if taint is not None:
+                    st.taint.add(res.vid, taint)
                 return res
             tlo, thi = t.int_range()
             if t.tag == "Int":
@@ -909,7 +909,7 @@ class Interp:
             if tlo <= lo and hi <= thi:
                 r = I(a.vid, ty)      # value preserved: same symbolic value, new machine type
                 return r
-            taint = a.vid in st.taint
+            taint = tl(st, a.vid)
             if lo == hi:
                 v = wrap_to(lo, tlo, thi)
                 return self.ctx.mk_int(st, v, v, ty, taint=taint)
@@ -1150,7 +1150,7 @@ class Interp:
             return
         e = seq.elem
         tmp = st.copy()
-        probe = self.ctx.mk_int(tmp, *tmp.itv[e.vid], e.ty, taint=e.vid in tmp.taint)
+        probe = self.ctx.mk_int(tmp, *tmp.itv[e.vid], e.ty, taint=tl(tmp, e.vid))
         key = ("h", "probe", site)
         tmp.store[key] = probe
         fr = getattr(self, "_cur_frame", None)
